@@ -199,14 +199,14 @@ def main(argv=None):
                     known_obl |= set(kf.get("obligations", []))
             known_here = []
             for f in list(r.get("failures", [])):
-                oid = r["id"] + (":" + str(f.get("what"))[:80] if isinstance(f, dict) and f.get("what") else "")
+                oid = r["id"] + (":" + str(f.get("what"))[:160] if isinstance(f, dict) and f.get("what") else "")
                 if oid in known_obl:
                     # a recorded finding, identified by its specific cell: not a new violation
                     known_here.append(oid)
                     r["failures"].remove(f)
             r["known_findings_hit"] = known_here
             for f in r.get("failures", [])[:400]:
-                violations.append({"obligation": r["id"] + (":" + str(f.get("what"))[:80] if isinstance(f, dict) and f.get("what") else ""), "bounded": True, "replayed": True, "witness": f, "contract": r["id"]})
+                violations.append({"obligation": r["id"] + (":" + str(f.get("what"))[:160] if isinstance(f, dict) and f.get("what") else ""), "bounded": True, "replayed": True, "witness": f, "contract": r["id"]})
 
     # ------------------------------------------------------------------ known findings
     kf_out = []
